@@ -127,6 +127,34 @@ def phase_C13(tier, seed, st, stats):
     return cov, viol
 
 
+def isa_phase():
+    """which instructions a call executes when the feature flags say "absent": GODEBUG leaves the processor as it is,
+    so an unguarded AVX2 / POPCNT instruction computes the right answer here and is SIGILL on a processor without it"""
+    import isaprobe
+    cov, viol = {}, []
+    lines = isaprobe.probe_cases()
+    cov["instruction_set_probe"] = {}
+    for godebug, prefixes, what in (("cpu.avx2=off", "v", "AVX/AVX2"), ("cpu.popcnt=off", "popcnt", "POPCNT")):
+        hits, info = isaprobe.probe(os.path.join(BUILD, "bin", "harness"), lines, godebug, prefixes)
+        cov["instruction_set_probe"][godebug] = info
+        per_case = {}
+        for h in hits:
+            per_case.setdefault(h["case"], []).append(h)
+        for case, hs in per_case.items():
+            h = hs[0]
+            viol.append({"kind": "config:isa", "case": case, "godebug": godebug, "isa_probe": prefixes,
+                         "detail": "configuration %s (the CPU-feature flag is false): the call executes the %s instruction `%s` in %s "
+                                   "(%d such instructions reached; call chain: %s) - a processor without the feature raises SIGILL "
+                                   "where this one returns a result" % (godebug, what, h["insn"].split(":", 1)[-1].strip(), h["where"],
+                                                                        len(hs), h["frames"])})
+    return cov, viol
+
+
+def phase_C06(tier, seed, st, stats):
+    """returning normally includes not dying of an illegal instruction on a processor without AVX2 / POPCNT"""
+    return isa_phase()
+
+
 def phase_C14(tier, seed, st, stats):
     """run the same corpus under every configuration and compare case by case with the default run"""
     base_dir = os.path.join(BUILD, "run", "C14")
@@ -173,24 +201,9 @@ def phase_C14(tier, seed, st, stats):
             cov["configurations"][name]["model_mismatches"] = len(mism)
             for m in mism[:5]:
                 viol.append(dict(m, kind="config: implementation != Spec under configuration " + name))
-    # which instructions a call executes when the feature flags say "absent": GODEBUG leaves the processor as it is,
-    # so an unguarded AVX2 / POPCNT instruction computes the right answer here and is SIGILL on a processor without it
-    import isaprobe
-    lines = isaprobe.probe_cases()
-    cov["instruction_set_probe"] = {}
-    for godebug, prefixes, what in (("cpu.avx2=off", "v", "AVX/AVX2"), ("cpu.popcnt=off", "popcnt", "POPCNT")):
-        hits, info = isaprobe.probe(os.path.join(BUILD, "bin", "harness"), lines, godebug, prefixes)
-        cov["instruction_set_probe"][godebug] = info
-        per_case = {}
-        for h in hits:
-            per_case.setdefault(h["case"], []).append(h)
-        for case, hs in per_case.items():
-            h = hs[0]
-            viol.append({"kind": "config:isa", "case": case, "godebug": godebug, "isa_probe": prefixes,
-                         "detail": "configuration %s (the CPU-feature flag is false): the call executes the %s instruction `%s` in %s "
-                                   "(%d such instructions reached; call chain: %s) - a processor without the feature raises SIGILL "
-                                   "where this one returns a result" % (godebug, what, h["insn"].split(":", 1)[-1].strip(), h["where"],
-                                                                        len(hs), h["frames"])})
+    c2, v2 = isa_phase()
+    cov.update(c2)
+    viol.extend(v2)
     return cov, viol
 
 
